@@ -16,6 +16,9 @@
 (*            really fails)                                                                    *)
 (*   how      mode diff: "files" two paths | "samepath" the same path twice | "badopt" an        *)
 (*            option the differ rejects (status >= 2 then comes from the differ itself)          *)
+(*   wf, wat  a disturbed write call (the consumer stays): "none" | "short" the wat-th write call   *)
+(*            takes only a part of its bytes | "shortall" so does every later one | "eintr" it fails  *)
+(*            with EINTR; what the consumer gets and how delta exits must not depend on it           *)
 (* The operators below say what must be observed; they are used both to enumerate the fault  *)
 (* space (MC_Pager) and to judge recorded runs (Trace_Pager).                                *)
 EXTENDS Naturals, Sequences, FiniteSets
@@ -32,7 +35,7 @@ ExitOK(sc, code, hit) ==
   IF sc.quit = 0 THEN code = NormalExit(sc)
   ELSE IF sc.out = "stdout" THEN code = (IF hit THEN 0 ELSE NormalExit(sc))
   ELSE code \in {0, NormalExit(sc)}
-WantQuiet(sc) == sc.quit > 0                 \* no panic, no error message about the consumer
+WantQuiet(sc) == sc.quit > 0 \/ sc.wf # "none"                 \* no panic, no error message about the consumer
 
 \* --- pager selection:  --pager / delta.pager > DELTA_PAGER > BAT_PAGER > PAGER > less ---
 Chosen(sc) ==
